@@ -120,7 +120,7 @@ def gen_split_case(rng):
 def fam_split_timeseries(ctx, rng):
     import hvsrpy
     fs, dt, n, L, cls = gen_split_case(rng)
-    x = np.arange(n, dtype=float) * 1.5 + rng.standard_normal(n)
+    x = gen.as_stored(np.arange(n, dtype=float) * 1.5 + rng.standard_normal(n))
     info = dict(fs=fs, n=n, window_length=L, ratio=L / dt, length_class=cls)
     ctx.describe(**info)
     ts = hvsrpy.TimeSeries(x, dt)
@@ -139,7 +139,7 @@ def fam_split_timeseries(ctx, rng):
 
 def fam_split_recording(ctx, rng):
     fs, dt, n, L, cls = gen_split_case(rng)
-    comps = [np.arange(n, dtype=float) * c + rng.standard_normal(n) for c in (1.0, -2.0, 0.5)]
+    comps = gen.as_stored([np.arange(n, dtype=float) * c + rng.standard_normal(n) for c in (1.0, -2.0, 0.5)])
     info = dict(fs=fs, n=n, window_length=L, ratio=L / dt, length_class=cls)
     ctx.describe(**info)
     rec = gen.make_recording(comps[0], comps[1], comps[2], dt, degrees_from_north=30.0, meta={"tag": 1})
@@ -213,6 +213,11 @@ def fam_preprocess(ctx, rng):
         t = np.arange(n) * dt
         arrs = [gen.signal(rng, n) + rng.uniform(2, 20) * t / t[-1] * rng.choice([-1, 1]) + 3 * np.sin(2 * np.pi * 0.05 * t + rng.uniform(0, 6))
                 + rng.uniform(-5, 5) for _ in range(3)]
+        if rng.random() < 0.3:
+            # raw counts on a large offset (an un-detrended digitiser output)
+            off = float(rng.choice([3.0e4, 4.0e6]))
+            arrs = [np.round(a * 40.0) + off for a in arrs]
+        arrs = gen.as_stored(arrs)
         items.append((arrs, float(rng.uniform(0, 360))))
     info = dict(fs=fs, lengths=[int(a[0][0].size) for a in items], corners=list(corners), detrend=det, target=target, window_length=L)
     ctx.describe(**info)
